@@ -11,6 +11,10 @@
  */
 #include "iv_wait.c"
 #include "stubs/base.h"
+/* lock-ownership model: until this thread holds the wait lock, the SIGCHLD reaper of another thread may
+ * reap the child and mark the interest dead (enabled per unit with g_reap_at_lock) */
+static void verif_on_lock(void);
+#define VERIF_ON_LOCK(m)	verif_on_lock()
 #include "stubs/lock.h"
 
 #ifndef K
@@ -170,10 +174,17 @@ int STUB(kill)(pid_t pid, int sig)
 	return verif_in.kill_ret;
 }
 
+static int g_reap_at_lock;
+static void verif_on_lock(void)
+{
+	if (g_reap_at_lock && verif_in.act[3] >= 128)
+		v_I.flags |= IV_WAIT_STATUS_DEAD;
+}
+
 int iv_wait_interest_kill__contract(const struct iv_wait_interest *this, int sig)
 __CPROVER_requires(g_kills == 0 && !g_lock_held && g_lock_acq == 0)
-__CPROVER_assigns(g_kills, g_kill_pid, g_kill_sig, g_lock_held, g_lock_acq)
-__CPROVER_ensures(IMPLIES(this->flags & IV_WAIT_STATUS_DEAD, g_kills == 0 && __CPROVER_return_value == -ESRCH))	/* [C11,C19] never signals a pid whose termination has been reaped */
+__CPROVER_assigns(g_kills, g_kill_pid, g_kill_sig, g_lock_held, g_lock_acq, v_I.flags)
+__CPROVER_ensures(IMPLIES(this->flags & IV_WAIT_STATUS_DEAD, g_kills == 0 && __CPROVER_return_value == -ESRCH))	/* [C11,C19] never signals a pid whose termination has been reaped -- judged by the flag as it is once the lock is held (another thread may reap the child until then) */
 __CPROVER_ensures(IMPLIES(!(this->flags & IV_WAIT_STATUS_DEAD), g_kills == 1 && g_kill_pid == this->pid && g_kill_sig == sig && __CPROVER_return_value == verif_in.kill_ret))	/* [C19] otherwise exactly one kill() of that pid with that signal */
 __CPROVER_ensures(!g_lock_held && g_lock_acq == 1)
 ;
@@ -184,6 +195,7 @@ void h_kill(void)
 
 	v_build();
 	g_kills = 0;
+	g_reap_at_lock = 1;
 	r = CALL(iv_wait_interest_kill)(&v_I, verif_in.sig);
 	CANARY();
 }
